@@ -51,6 +51,8 @@ def cases(tier, seed):
   n_model = 24 if tier == "quick" else 300
   for i in range(n_model):
     out.append({"part": "model", "mseed": rnd.randrange(1 << 30)})
+  for i in range(6 if tier == "quick" else 60):
+    out.append({"part": "sequential", "mseed": rnd.randrange(1 << 30)})
   rnd.shuffle(out)
   for i, c in enumerate(out):
     c["idx"], c["seed"] = i, seed
@@ -338,8 +340,69 @@ def run_model(c, ctx):
   ctx.sample({"part": "model", "layers": [(type(l).__name__, l.name) for l in model.layers], "folded": folded})
 
 
+def run_sequential(c, ctx):
+  """The same unfold claim for models built with the Sequential API (no InputLayer among model.layers)."""
+  import tensorflow as tf
+  import tensorflow.keras.backend as K
+  import qkeras as qk
+  from qkeras import bn_folding_utils
+  tf.keras.backend.clear_session()
+  K.set_learning_phase(0)
+  rnd = random.Random(c["mseed"])
+  rs = np.random.default_rng(c["mseed"])
+  wide = "quantized_bits(12,3,1,alpha=1.0)"
+  how = rnd.choice(["input_shape_kwarg", "input_layer_object", "input_shape_kwarg"])
+  first_kw = {"input_shape": (6, 6, 2)} if how == "input_shape_kwarg" else {}
+  layers = []
+  if how == "input_layer_object":
+    layers.append(tf.keras.layers.InputLayer(input_shape=(6, 6, 2)))
+  n_fold = rnd.randint(1, 2)
+  for i in range(n_fold):
+    kw = first_kw if i == 0 else {}
+    if rnd.random() < 0.6:
+      layers.append(qk.QConv2DBatchnorm(filters=rnd.randint(1, 3), kernel_size=(2, 2), padding="same", use_bias=bool(rnd.randint(0, 1)),
+                                        kernel_quantizer=wide, bias_quantizer=wide, name="fold_%d" % i, **kw))
+    else:
+      layers.append(qk.QDepthwiseConv2DBatchnorm(kernel_size=(2, 2), padding="same", use_bias=bool(rnd.randint(0, 1)),
+                                                 depthwise_quantizer=wide, bias_quantizer=wide, name="fold_%d" % i, **kw))
+    if rnd.random() < 0.5:
+      layers.append(qk.QActivation("quantized_relu(8,3)", name="act_%d" % i))
+  layers.append(tf.keras.layers.Flatten(name="flat"))
+  layers.append(qk.QDense(2, kernel_quantizer=wide, bias_quantizer=wide, name="head"))
+  base = {"part": "sequential", "how": how}
+  ok, model = ctx.call(dict(base, op="build"), lambda: tf.keras.Sequential(layers))
+  if not ok:
+    return
+  x = rs.normal(0, 1, size=(3, 6, 6, 2)).astype(np.float32)
+  ok, _ = ctx.call(dict(base, op="first_call"), lambda: model(x, training=False))
+  if not ok:
+    return
+  for w in model.weights:
+    if "iteration" in w.name or not w.dtype.is_floating:
+      continue
+    v = rs.normal(0, 0.5, size=w.shape).astype(np.float32)
+    if "moving_variance" in w.name:
+      v = np.abs(v) + 0.2
+    w.assign(v)
+  ctx.count("sequential_cases")
+  ctx.nontrivial("sequential", c["mseed"])
+  y_fold = np.asarray(model(x, training=False))
+  ok, um = ctx.call(dict(base, op="unfold_model"), bn_folding_utils.unfold_model, model)
+  if not ok:
+    return
+  y_unf = np.asarray(um(x, training=False))
+  ctx.evals(int(y_unf.size))
+  d = float(np.abs(y_unf - y_fold).max()) if y_unf.shape == y_fold.shape else -1
+  if d < 0 or d > 8 * 2.0 ** -23 * max(1.0, float(np.abs(y_fold).max())):
+    ctx.violation(dict(base, kind="unfolded_sequential_model_predictions_differ"),
+                  "max |diff| = %g between the folded Sequential model and its unfolded form" % d,
+                  {"layers": [(type(l).__name__, l.name) for l in model.layers]})
+
+
 def run_case(c, ctx):
   if c["part"] == "layer":
     run_layer(c, ctx)
+  elif c["part"] == "sequential":
+    run_sequential(c, ctx)
   else:
     run_model(c, ctx)
